@@ -198,6 +198,10 @@ def _body(rec, cs):
                 want = shape.shape_spans(ds[0], inp)
                 if len(want) != 1:
                     return hs.fail(rec, 'oracle root is not a single tree', text=repr(text))
+                if _check_meta({}, text, want[0], tree) is not True:
+                    # is the mismatch exactly "a ?rule collapsed to a Token hides the filtered tokens around it"? (recorded finding)
+                    if _check_meta({}, text, shape.shape_spans(ds[0], inp, shape.lark_extent)[0], tree) is True:
+                        rec['fkey'] = 'collapsed-token-hides-filtered-span:%s' % P['g']
                 r = _check_meta(rec, text, want[0], tree)
                 if r is not True:
                     return r
